@@ -93,7 +93,7 @@ def gen_case(rng, tier, idx):
             v = [v]
         return {"kind": kind, "value": v, "indent": rng.choice([None, None, 1, 2, 4]), "ascii": rng.random() < 0.5,
                 "noise": rng.sample(["Warning: something", "INFO loading", "", "note: x", "123"], rng.randint(0, 3)),
-                "mutation": rng.choice(["valid", "valid", "valid", "trunc", "garbage", "null", "empty", "delbracket", "inject", "blank"]),
+                "mutation": rng.choice(["valid", "valid", "valid", "trunc", "garbage", "null", "empty", "delbracket", "inject", "blank", "badscalar"]),
                 "mut_arg": rng.randint(1, 6), "flow": rng.choice([True, False, None]), "unicode": rng.random() < 0.5,
                 "as_list": rng.random() < 0.8}
     if kind == "search":
@@ -284,6 +284,10 @@ def run_doc(spec, ctx):
     else:
         yt = yaml.safe_dump(v)
     ymut = mutate(yt) if mut in ("trunc", "garbage", "null", "empty", "blank", "inject", "delbracket") else yt
+    if mut == "badscalar":
+        # syntactically fine YAML whose scalar cannot be constructed (the constructors raise plain ValueError)
+        ymut = ["installed: 2019-02-30", "a: 1\nb: 2001-13-01", "- !!int abc", "t: 2001-12-14t21:59:43.10+99:00", "- 2001-02-29 10:00:00",
+                "x: !!float nope"][spec["mut_arg"] % 6]
     yarg = ymut.split("\n") if (spec["as_list"] and ymut != "") else ymut
     if yarg == "":
         yarg = []
